@@ -7,20 +7,25 @@ namespace Rlbox.C13
 open Rlbox
 
 /-- the ownership invariant: for every sandbox object the registered keys, the functions reachable
-through the backend's entry-point table and the functions held by owner objects are the same set;
-table entries and owners are unique. -/
+through the backend's entry-point table and the functions held by owner objects *whose registration
+was made in the current incarnation of the sandbox* are the same set; table entries and owners are
+unique; an owner never carries an incarnation number from the future; only a created sandbox has
+registrations. -/
 structure Inv (w : World) : Prop where
-  keysOwned : ∀ i f, (w.sbx i).keys f = true ↔ ∃ o, w.owners o = some (i, f)
+  keysOwned : ∀ i f, (w.sbx i).keys f = true ↔ ∃ o, w.owners o = some (i, f, (w.sbx i).inc)
   keysSlots : ∀ i f, (w.sbx i).keys f = true ↔ ∃ k, k < w.max ∧ (w.sbx i).slots k = some f
   slotsUniq : ∀ i k1 k2 f, k1 < w.max → k2 < w.max → (w.sbx i).slots k1 = some f → (w.sbx i).slots k2 = some f → k1 = k2
   ownersUniq : ∀ o1 o2 x, w.owners o1 = some x → w.owners o2 = some x → o1 = o2
+  ownersLe : ∀ o i f n, w.owners o = some (i, f, n) → n ≤ (w.sbx i).inc
+  keysCreated : ∀ i f, (w.sbx i).keys f = true → (w.sbx i).status = .created
 
 theorem inv_init (m : Nat) : Inv (World.init m) := by
   constructor <;> simp [World.init]
 
-/-- the owner (if it holds anything) holds a registration of a sandbox that is currently created -/
-def ownerLive (w : World) (o : Nat) : Prop :=
-  ∀ i f, w.owners o = some (i, f) → (w.sbx i).status = .created
+/-- the owner holds a live registration of function `f` with sandbox `i`: made in the current
+incarnation of a sandbox that is created -/
+def holdsLive (w : World) (o i f : Nat) : Prop :=
+  w.owners o = some (i, f, (w.sbx i).inc) ∧ (w.sbx i).status = .created
 
 /-- Registering a function that is already registered aborts. -/
 theorem C13_no_dup (w : World) (i o f : Nat) (h : (w.sbx i).keys f = true) : w.register i o f = none := by
@@ -55,27 +60,97 @@ theorem slotOf_spec (w : World) (hi : Inv w) (i f : Nat) (hk : (w.sbx i).keys f 
     obtain ⟨_, b, c⟩ := scanIdx_some _ _ _ _ hs
     exact ⟨k', rfl, by omega, by simpa using c⟩
 
-/-- Releasing an owner (unregister / destructor / being overwritten) whose sandbox is created keeps
-the invariant, empties the owner, and removes exactly its function from the registered set. -/
-theorem release_inv (w w' : World) (o : Nat) (hi : Inv w) (hl : ownerLive w o) (h : w.release o = some w') :
+/-- Releasing an owner (unregister / destructor / being overwritten) never aborts in a state that
+satisfies the invariant, keeps the invariant, empties the owner, and removes exactly its function
+from the registered set if the registration was live; a stale owner (its sandbox was destroyed, and
+possibly created again, since) changes nothing but itself. -/
+theorem release_total (w : World) (o : Nat) (hi : Inv w) : ∃ w', w.release o = some w' := by
+  unfold World.release
+  cases ho : w.owners o with
+  | none => exact ⟨w, rfl⟩
+  | some p =>
+    obtain ⟨i, f, n⟩ := p
+    simp only
+    by_cases h1 : (w.sbx i).status ≠ .created ∨ (w.sbx i).inc ≠ n
+    · simp [h1]
+    · have hn : (w.sbx i).inc = n := by
+        by_cases e : (w.sbx i).inc = n
+        · exact e
+        · exact absurd (Or.inr e) h1
+      have hk : (w.sbx i).keys f = true := (hi.keysOwned i f).2 ⟨o, by rw [ho, hn]⟩
+      simp [h1, hk]
+
+theorem release_inv (w w' : World) (o : Nat) (hi : Inv w) (h : w.release o = some w') :
     Inv w' ∧ w'.owners o = none ∧ (∀ p, p ≠ o → w'.owners p = w.owners p) ∧ w'.max = w.max ∧
-    (∀ i f, w.owners o = some (i, f) → (w'.sbx i).keys f = false) ∧
-    (∀ i g, w.owners o ≠ some (i, g) → (w'.sbx i).keys g = (w.sbx i).keys g) := by
-  rcases release_cases w w' o h with ⟨hn, rfl⟩ | ⟨i, f, ho, hnc, rfl⟩ | ⟨i, f, ho, hc, hk, rfl⟩
-  · refine ⟨hi, hn, ?_, rfl, ?_, ?_⟩
+    (∀ i f, w.owners o = some (i, f, (w.sbx i).inc) → (w'.sbx i).keys f = false) ∧
+    (∀ i g, w.owners o ≠ some (i, g, (w.sbx i).inc) → (w'.sbx i).keys g = (w.sbx i).keys g) ∧
+    (∀ j, (w'.sbx j).status = (w.sbx j).status ∧ (w'.sbx j).inc = (w.sbx j).inc) := by
+  rcases release_cases w w' o h with ⟨hn, rfl⟩ | ⟨i, f, n, ho, hst, rfl⟩ | ⟨i, f, n, ho, hc, hinc, hk, rfl⟩
+  · refine ⟨hi, hn, ?_, rfl, ?_, ?_, ?_⟩
     · intro _ _; rfl
     · intro i f e; rw [hn] at e; cases e
     · intro _ _ _; rfl
-  · exact absurd (hl i f ho) hnc
-  · obtain ⟨k, hs, hkm, hsk⟩ := slotOf_spec w hi i f hk
+    · intro _; exact ⟨rfl, rfl⟩
+  · -- stale owner, or sandbox not created: only the owner changes
+    have hnot : ∀ i' f', w.owners o = some (i', f', (w.sbx i').inc) → (w.sbx i').keys f' = false := by
+      intro i' f' e
+      rw [ho] at e
+      have e := Option.some.inj e
+      simp only [Prod.mk.injEq] at e
+      obtain ⟨rfl, rfl, rfl⟩ := e
+      cases hkk : (w.sbx i).keys f with
+      | false => rfl
+      | true =>
+        have := hi.keysCreated i f hkk
+        rcases hst with a | a
+        · exact absurd this a
+        · exact absurd rfl a
+    refine ⟨⟨?_, ?_, ?_, ?_, ?_, ?_⟩, by simp [World.setO], ?_, rfl, ?_, ?_, ?_⟩
+    · intro i' f'
+      simp only [setO_sbx]
+      rw [hi.keysOwned i' f']
+      constructor
+      · rintro ⟨p, hp⟩
+        have : p ≠ o := by
+          intro e; subst e
+          have := hnot i' f' hp
+          have h2 := (hi.keysOwned i' f').2 ⟨p, hp⟩
+          rw [this] at h2; cases h2
+        exact ⟨p, by rw [setO_other _ _ _ _ this]; exact hp⟩
+      · rintro ⟨p, hp⟩
+        by_cases hpo : p = o
+        · subst hpo; simp [World.setO] at hp
+        · rw [setO_other _ _ _ _ hpo] at hp; exact ⟨p, hp⟩
+    · intro i' f'; simp only [setO_sbx, setO_max]; exact hi.keysSlots i' f'
+    · intro i' k1 k2 f'; simp only [setO_sbx, setO_max]; exact hi.slotsUniq i' k1 k2 f'
+    · intro o1 o2 x e1 e2
+      by_cases a1 : o1 = o
+      · subst a1; simp [World.setO] at e1
+      · by_cases a2 : o2 = o
+        · subst a2; simp [World.setO] at e2
+        · rw [setO_other _ _ _ _ a1] at e1; rw [setO_other _ _ _ _ a2] at e2
+          exact hi.ownersUniq o1 o2 x e1 e2
+    · intro p i' f' n' e
+      by_cases a : p = o
+      · subst a; simp [World.setO] at e
+      · rw [setO_other _ _ _ _ a] at e; simp only [setO_sbx]; exact hi.ownersLe p i' f' n' e
+    · intro i' f'; simp only [setO_sbx]; exact hi.keysCreated i' f'
+    · intro p hp; exact setO_other _ _ _ _ hp
+    · intro i' f' e; simp only [setO_sbx]; exact hnot i' f' e
+    · intro _ _ _; rfl
+    · intro _; exact ⟨rfl, rfl⟩
+  · subst hinc
+    obtain ⟨k, hs, hkm, hsk⟩ := slotOf_spec w hi i f hk
     have hkeys := releasedObj_keys w i f
     have hslots := releasedObj_slots w i f k hs
-    refine ⟨⟨?_, ?_, ?_, ?_⟩, by simp [World.setO], ?_, rfl, ?_, ?_⟩
+    have hstat : (releasedObj w i f).status = (w.sbx i).status := rfl
+    have hincr : (releasedObj w i f).inc = (w.sbx i).inc := rfl
+    refine ⟨⟨?_, ?_, ?_, ?_, ?_, ?_⟩, by simp [World.setO], ?_, rfl, ?_, ?_, ?_⟩
     · -- keysOwned
       intro i' f'
       by_cases hii : i' = i
       · subst hii
-        simp only [setS_sbx_same, hkeys, setS_owners]
+        simp only [setS_sbx_same, hkeys, setS_owners, hincr]
         by_cases hff : f' = f
         · subst hff
           simp only [if_true, Bool.false_eq_true, false_iff, not_exists]
@@ -89,7 +164,11 @@ theorem release_inv (w w' : World) (o : Nat) (hi : Inv w) (hl : ownerLive w o) (
           constructor
           · rintro ⟨p, hp⟩
             refine ⟨p, ?_⟩
-            have : p ≠ o := by intro e; subst e; rw [ho] at hp; cases hp; exact hff rfl
+            have : p ≠ o := by
+              intro e; subst e; rw [ho] at hp
+              have := Option.some.inj hp
+              simp only [Prod.mk.injEq] at this
+              exact hff this.2.1.symm
             rw [setO_other _ _ _ _ this]; exact hp
           · rintro ⟨p, hp⟩
             by_cases hpo : p = o
@@ -98,7 +177,11 @@ theorem release_inv (w w' : World) (o : Nat) (hi : Inv w) (hl : ownerLive w o) (
       · rw [setS_sbx_other _ _ _ _ hii, setO_sbx, setS_owners, hi.keysOwned i' f']
         constructor
         · rintro ⟨p, hp⟩
-          have : p ≠ o := by intro e; subst e; rw [ho] at hp; cases hp; exact hii rfl
+          have : p ≠ o := by
+            intro e; subst e; rw [ho] at hp
+            have := Option.some.inj hp
+            simp only [Prod.mk.injEq] at this
+            exact hii this.1.symm
           exact ⟨p, by rw [setO_other _ _ _ _ this]; exact hp⟩
         · rintro ⟨p, hp⟩
           by_cases hpo : p = o
@@ -150,9 +233,28 @@ theorem release_inv (w w' : World) (o : Nat) (hi : Inv w) (hl : ownerLive w o) (
         · subst a2; simp [World.setO] at e2
         · rw [setO_other _ _ _ _ a1] at e1; rw [setO_other _ _ _ _ a2] at e2
           exact hi.ownersUniq o1 o2 x e1 e2
+    · -- ownersLe
+      intro p i' f' n' e
+      simp only [setS_owners] at e
+      by_cases a : p = o
+      · subst a; simp [World.setO] at e
+      · rw [setO_other _ _ _ _ a] at e
+        by_cases hii : i' = i
+        · subst hii; simp only [setS_sbx_same, hincr]; exact hi.ownersLe p i' f' n' e
+        · rw [setS_sbx_other _ _ _ _ hii, setO_sbx]; exact hi.ownersLe p i' f' n' e
+    · -- keysCreated
+      intro i' f' e
+      by_cases hii : i' = i
+      · subst hii
+        simp only [setS_sbx_same, hstat]
+        exact hc
+      · rw [setS_sbx_other _ _ _ _ hii, setO_sbx] at e ⊢; exact hi.keysCreated i' f' e
     · intro p hp; simp only [setS_owners]; exact setO_other _ _ _ _ hp
     · intro i' f' e
-      rw [ho] at e; cases e
+      rw [ho] at e
+      have e := Option.some.inj e
+      simp only [Prod.mk.injEq] at e
+      obtain ⟨rfl, rfl, _⟩ := e
       simp [hkeys]
     · intro i' g hne
       by_cases hii : i' = i
@@ -161,36 +263,43 @@ theorem release_inv (w w' : World) (o : Nat) (hi : Inv w) (hl : ownerLive w o) (
         have : g ≠ f := by intro e; subst e; exact hne ho
         simp [this]
       · rw [setS_sbx_other _ _ _ _ hii, setO_sbx]
+    · intro j
+      by_cases hj : j = i
+      · subst hj; simp only [setS_sbx_same, hstat, hincr, setO_sbx]; exact ⟨trivial, trivial⟩
+      · rw [setS_sbx_other _ _ _ _ hj, setO_sbx]; exact ⟨rfl, rfl⟩
 
-/-- Unregistering / destroying / overwriting the owner makes the function registrable again:
-afterwards it is in nobody's key set. (`C13_release_reenables`) -/
-theorem C13_release_reenables (w w' : World) (o i f : Nat) (hi : Inv w) (hl : ownerLive w o)
-    (ho : w.owners o = some (i, f)) (h : w.release o = some w') :
+/-- Unregistering / destroying / overwriting the owner of a live registration makes the function
+registrable again: afterwards it is in nobody's key set. -/
+theorem C13_release_reenables (w w' : World) (o i f : Nat) (hi : Inv w)
+    (ho : w.owners o = some (i, f, (w.sbx i).inc)) (h : w.release o = some w') :
     (w'.sbx i).keys f = false ∧ w'.owners o = none ∧ Inv w' := by
-  obtain ⟨a, b, _, _, e, _⟩ := release_inv w w' o hi hl h
+  obtain ⟨a, b, _, _, e, _⟩ := release_inv w w' o hi h
   exact ⟨e i f ho, b, a⟩
 
 /-- Recording a new registration in an empty owner `t` keeps the invariant. -/
 theorem registerNew_inv (w w' : World) (i t f k : Nat) (hi : Inv w) (ht : w.owners t = none)
     (h : w.registerNew i t f = some (w', k)) :
-    Inv w' ∧ w'.owners t = some (i, f) ∧ (∀ p, p ≠ t → w'.owners p = w.owners p) ∧
+    Inv w' ∧ w'.owners t = some (i, f, (w.sbx i).inc) ∧ (∀ p, p ≠ t → w'.owners p = w.owners p) ∧
     (w'.sbx i).keys f = true ∧ (w'.sbx i).slots k = some f ∧ k < w.max ∧ w'.max = w.max ∧
-    (∀ j, (w'.sbx j).status = (w.sbx j).status) := by
+    (∀ j, (w'.sbx j).status = (w.sbx j).status ∧ (w'.sbx j).inc = (w.sbx j).inc) := by
   obtain ⟨hc, hkf, hff, rfl⟩ := registerNew_cases w w' i t f k h
   obtain ⟨_, hk2, hk3⟩ := scanIdx_some _ _ _ _ hff
   have hkm : k < w.max := by omega
   have hfree : (w.sbx i).slots k = none := by
     cases hs : (w.sbx i).slots k <;> simp_all
-  have hno : ∀ p, w.owners p ≠ some (i, f) := by
+  have hno : ∀ p, w.owners p ≠ some (i, f, (w.sbx i).inc) := by
     intro p hp; have := (hi.keysOwned i f).2 ⟨p, hp⟩; rw [hkf] at this; cases this
   have hnslot : ∀ k', k' < w.max → (w.sbx i).slots k' ≠ some f := by
     intro k' hk' hs; have := (hi.keysSlots i f).2 ⟨k', hk', hs⟩; rw [hkf] at this; cases this
-  refine ⟨⟨?_, ?_, ?_, ?_⟩, by simp [World.setO], ?_, by simp [World.setS, registeredObj],
+  have hincr : (registeredObj w i f k).inc = (w.sbx i).inc := rfl
+  have hstat : (registeredObj w i f k).status = (w.sbx i).status := rfl
+  refine ⟨⟨?_, ?_, ?_, ?_, ?_, ?_⟩, by simp [World.setO], ?_, by simp [World.setS, registeredObj],
     by simp [World.setS, registeredObj], hkm, rfl, ?_⟩
   · intro i' f'
     by_cases hii : i' = i
     · subst hii
-      simp only [setO_sbx, setS_sbx_same, registeredObj]
+      simp only [setO_sbx, setS_sbx_same, hincr]
+      simp only [registeredObj]
       by_cases hf' : f' = f
       · subst hf'; simp only [if_true, true_iff]; exact ⟨t, by simp [World.setO]⟩
       · simp only [hf', if_false]; rw [hi.keysOwned i' f']
@@ -248,6 +357,26 @@ theorem registerNew_inv (w w' : World) (i t f k : Nat) (hi : Inv w) (ht : w.owne
       have := Option.some.inj e2; subst this; exact absurd e1 (hno o1)
     · rw [setO_other _ _ _ _ a1] at e1; rw [setO_other _ _ _ _ a2] at e2
       exact hi.ownersUniq o1 o2 x e1 e2
+  · -- ownersLe
+    intro p i' f' n' e
+    simp only [setO_sbx]
+    have hinc' : ((w.setS i (registeredObj w i f k)).sbx i').inc = (w.sbx i').inc := by
+      by_cases hii : i' = i
+      · subst hii; simp only [setS_sbx_same, hincr]
+      · rw [setS_sbx_other _ _ _ _ hii]
+    rw [hinc']
+    by_cases a : p = t
+    · subst a
+      simp only [setO_same, Option.some.injEq, Prod.mk.injEq] at e
+      obtain ⟨rfl, _, rfl⟩ := e
+      exact Nat.le_refl _
+    · rw [setO_other _ _ _ _ a] at e; exact hi.ownersLe p i' f' n' e
+  · -- keysCreated
+    intro i' f' e
+    simp only [setO_sbx] at e ⊢
+    by_cases hii : i' = i
+    · subst hii; simp only [setS_sbx_same, hstat]; exact hc
+    · rw [setS_sbx_other _ _ _ _ hii] at e ⊢; exact hi.keysCreated i' f' e
   · intro p hp; rw [setO_other _ _ _ _ hp]; rfl
   · intro j
     by_cases hj : j = i
@@ -255,19 +384,23 @@ theorem registerNew_inv (w w' : World) (i t f k : Nat) (hi : Inv w) (ht : w.owne
     · simp [World.setS, hj]
 
 /-- Moving transfers ownership and leaves the source inert; what the destination held is released. -/
-theorem C13_move_transfers (w w' : World) (dst src : Nat) (hne : dst ≠ src) (hi : Inv w) (hl : ownerLive w dst)
+theorem C13_move_transfers (w w' : World) (dst src : Nat) (hne : dst ≠ src) (hi : Inv w)
     (h : w.moveOwner dst src = some w') :
     Inv w' ∧ w'.owners dst = w.owners src ∧ w'.owners src = none ∧
     (∀ p, p ≠ dst → p ≠ src → w'.owners p = w.owners p) ∧
-    (∀ i f, w.owners dst = some (i, f) → (w'.sbx i).keys f = false) := by
+    (∀ i f, w.owners dst = some (i, f, (w.sbx i).inc) → (w'.sbx i).keys f = false) ∧
+    (∀ j, (w'.sbx j).status = (w.sbx j).status ∧ (w'.sbx j).inc = (w.sbx j).inc) := by
   simp only [World.moveOwner, hne, if_false] at h
   cases hr : w.release dst with
   | none => simp [hr] at h
   | some w1 =>
     simp only [hr, Option.some.injEq] at h; subst h
-    obtain ⟨i1, o1, oth1, _, gone1, _⟩ := release_inv w w1 dst hi hl hr
+    obtain ⟨i1, o1, oth1, _, gone1, _, st1⟩ := release_inv w w1 dst hi hr
     have hsrc : w1.owners src = w.owners src := oth1 src (fun e => hne e.symm)
-    refine ⟨⟨?_, ?_, ?_, ?_⟩, ?_, by simp [World.setO], ?_, ?_⟩
+    have val : ∀ p, ((w1.setO dst (w1.owners src)).setO src none).owners p =
+        if p = src then none else if p = dst then w1.owners src else w1.owners p := by
+      intro p; simp [World.setO]
+    refine ⟨⟨?_, ?_, ?_, ?_, ?_, ?_⟩, ?_, by simp [World.setO], ?_, ?_, ?_⟩
     · intro i f
       simp only [setO_sbx]
       rw [i1.keysOwned i f]
@@ -287,9 +420,6 @@ theorem C13_move_transfers (w w' : World) (dst src : Nat) (hne : dst ≠ src) (h
     · intro i f; simp only [setO_sbx, setO_max]; exact i1.keysSlots i f
     · intro i k1 k2 f; simp only [setO_sbx, setO_max]; exact i1.slotsUniq i k1 k2 f
     · intro p1 p2 x e1 e2
-      have val : ∀ p, ((w1.setO dst (w1.owners src)).setO src none).owners p =
-          if p = src then none else if p = dst then w1.owners src else w1.owners p := by
-        intro p; simp [World.setO]
       rw [val] at e1 e2
       by_cases a1 : p1 = src
       · simp [a1] at e1
@@ -304,19 +434,39 @@ theorem C13_move_transfers (w w' : World) (dst src : Nat) (hne : dst ≠ src) (h
             exact absurd (i1.ownersUniq p1 src x e1 e2) a1
           · simp only [b1, b2, if_false] at e1 e2
             exact i1.ownersUniq p1 p2 x e1 e2
+    · intro p i f n e
+      rw [val] at e
+      simp only [setO_sbx]
+      by_cases a1 : p = src
+      · simp [a1] at e
+      · simp only [a1, if_false] at e
+        by_cases b1 : p = dst
+        · simp only [b1, if_true] at e; exact i1.ownersLe src i f n e
+        · simp only [b1, if_false] at e; exact i1.ownersLe p i f n e
+    · intro i f; simp only [setO_sbx]; exact i1.keysCreated i f
     · rw [setO_other _ _ _ _ hne, setO_same]; exact hsrc
     · intro p hpd hps; rw [setO_other _ _ _ _ hps, setO_other _ _ _ _ hpd]; exact oth1 p hpd
     · intro i f ho; simp only [setO_sbx]; exact gone1 i f ho
+    · intro j; simp only [setO_sbx]; exact st1 j
+
+/-- moving never aborts in a state that satisfies the invariant -/
+theorem move_total (w : World) (d s : Nat) (hi : Inv w) : ∃ w', w.moveOwner d s = some w' := by
+  unfold World.moveOwner
+  by_cases e : d = s
+  · simp [e]
+  · obtain ⟨w1, h1⟩ := release_total w d hi
+    simp [e, h1]
 
 /-- the temporary returned by `register_callback` is empty between operations -/
 def TmpFree (w : World) : Prop := w.owners tmpOwner = none
 
 /-- A successful registration through `o = sandbox.register_callback(f)`: the invariant is kept,
-owner `o` now holds `(i, f)`, what `o` held before has been released, the entry point designates `f`. -/
+owner `o` now holds a live registration of `f`, what `o` held before has been released, the entry
+point designates `f`. -/
 theorem C13_register (w w' : World) (i o f k : Nat) (hi : Inv w) (ht : TmpFree w) (ho : o ≠ tmpOwner)
-    (hl : ownerLive w o) (h : w.register i o f = some (w', k)) :
-    Inv w' ∧ TmpFree w' ∧ w'.owners o = some (i, f) ∧ (w'.sbx i).slots k = some f ∧ k < w.max ∧
-    (∀ i0 f0, w.owners o = some (i0, f0) → (i0, f0) ≠ (i, f) → (w'.sbx i0).keys f0 = false) := by
+    (h : w.register i o f = some (w', k)) :
+    Inv w' ∧ TmpFree w' ∧ holdsLive w' o i f ∧ (w'.sbx i).slots k = some f ∧ k < w.max ∧
+    (∀ i0 f0, w.owners o = some (i0, f0, (w.sbx i0).inc) → (i0, f0) ≠ (i, f) → (w'.sbx i0).keys f0 = false) := by
   unfold World.register at h
   cases hn : w.registerNew i tmpOwner f with
   | none => simp [hn] at h
@@ -324,115 +474,162 @@ theorem C13_register (w w' : World) (i o f k : Nat) (hi : Inv w) (ht : TmpFree w
     obtain ⟨w1, k1⟩ := r
     simp only [hn, Option.map_eq_some_iff, Prod.mk.injEq] at h
     obtain ⟨w2, hm, rfl, rfl⟩ := h
+    obtain ⟨hc, _, _, _⟩ := registerNew_cases w w1 i tmpOwner f k1 hn
     obtain ⟨i1, t1, oth1, _, s1, km, _, st1⟩ := registerNew_inv w w1 i tmpOwner f k1 hi ht hn
-    have hl1 : ownerLive w1 o := by
-      intro i0 f0 h0; rw [oth1 o ho] at h0; rw [st1 i0]; exact hl i0 f0 h0
-    obtain ⟨i2, d2, s2, _, g2⟩ := C13_move_transfers w1 w2 o tmpOwner ho i1 hl1 hm
-    refine ⟨i2, s2, by rw [d2]; exact t1, ?_, km, ?_⟩
+    obtain ⟨i2, d2, s2, _, g2, st2⟩ := C13_move_transfers w1 w2 o tmpOwner ho i1 hm
+    have hinc2 : (w2.sbx i).inc = (w.sbx i).inc := by rw [(st2 i).2, (st1 i).2]
+    have hst2 : (w2.sbx i).status = .created := by rw [(st2 i).1, (st1 i).1]; exact hc
+    refine ⟨i2, s2, ⟨by rw [d2, hinc2]; exact t1, hst2⟩, ?_, km, ?_⟩
     · -- the slot still designates f after the move (the release of what o held cannot touch it)
-      have hk : (w2.sbx i).keys f = true := (i2.keysOwned i f).2 ⟨o, by rw [d2]; exact t1⟩
-      -- slots are only changed by release; if o held nothing or something else, slot k is untouched
       simp only [World.moveOwner, ho, if_false] at hm
       cases hr : w1.release o with
       | none => simp [hr] at hm
       | some w1r =>
         simp only [hr, Option.some.injEq] at hm; subst hm
         simp only [setO_sbx]
-        rcases release_cases w1 w1r o hr with ⟨_, rfl⟩ | ⟨_, _, _, _, rfl⟩ | ⟨i3, f3, ho3, _, hk3, rfl⟩
+        rcases release_cases w1 w1r o hr with ⟨_, rfl⟩ | ⟨_, _, _, _, _, rfl⟩ | ⟨i3, f3, n3, ho3, _, hn3, hk3, rfl⟩
         · exact s1
         · exact s1
         · by_cases hii : i = i3
           · subst hii
             have hne : f3 ≠ f := by
               intro e; subst e
-              exact absurd (i1.ownersUniq o tmpOwner _ ho3 t1) ho
+              have t1' : w1.owners tmpOwner = some (i, f3, n3) := by rw [t1, ← (st1 i).2, hn3]
+              exact absurd (i1.ownersUniq o tmpOwner _ ho3 t1') ho
             obtain ⟨kk, hs, hkm, hsk⟩ := slotOf_spec w1 i1 i f3 hk3
             simp only [setS_sbx_same, releasedObj, hs]
             have : k1 ≠ kk := by intro e; subst e; rw [s1] at hsk; cases hsk; exact hne rfl
             simp [this, s1]
           · rw [setS_sbx_other _ _ _ _ hii, setO_sbx]; exact s1
-    · intro i0 f0 h0 _
-      have : w1.owners o = some (i0, f0) := by rw [oth1 o ho]; exact h0
-      exact g2 i0 f0 this
+    · intro i0 f0 h0 hne
+      have h1 : w1.owners o = some (i0, f0, (w1.sbx i0).inc) := by rw [oth1 o ho, (st1 i0).2]; exact h0
+      exact g2 i0 f0 h1
 
-/-- The invariant holds in every state reachable by histories in which no owner outlives
-`destroy_sandbox` of its sandbox (the excluded case is the known finding F6b): any operations,
-any length, any backend table size. `ok` states the side condition step by step. -/
-def stepOk (w : World) : LOp → Prop
-  | .register _ o _ => o ≠ tmpOwner ∧ ownerLive w o
-  | .release o => ownerLive w o
-  | .move d s => d ≠ tmpOwner ∧ s ≠ tmpOwner ∧ ownerLive w d
+/-- a step that leaves owners, table size, keys, entry points and incarnation numbers alone keeps the invariant -/
+theorem inv_congr (w w' : World) (hi : Inv w) (ho : w'.owners = w.owners) (hm : w'.max = w.max)
+    (hk : ∀ j, (w'.sbx j).keys = (w.sbx j).keys) (hs : ∀ j, (w'.sbx j).slots = (w.sbx j).slots)
+    (hn : ∀ j, (w'.sbx j).inc = (w.sbx j).inc)
+    (hc : ∀ j f, (w'.sbx j).keys f = true → (w'.sbx j).status = .created) : Inv w' := by
+  refine ⟨?_, ?_, ?_, ?_, ?_, hc⟩
+  · intro i f; rw [hk, hn, ho]; exact hi.keysOwned i f
+  · intro i f; rw [hk, hs, hm]; exact hi.keysSlots i f
+  · intro i k1 k2 f; rw [hs, hm]; exact hi.slotsUniq i k1 k2 f
+  · intro o1 o2 x; rw [ho]; exact hi.ownersUniq o1 o2 x
+  · intro o i f n; rw [ho, hn]; exact hi.ownersLe o i f n
+
+/-- `destroy_sandbox` ends every registration of the sandbox: the invariant holds afterwards whatever
+owner objects are still alive (they are stale from now on). -/
+theorem destroy_inv (w w' : World) (i : Nat) (hi : Inv w) (h : w.destroy i = some w') :
+    Inv w' ∧ w'.owners = w.owners ∧ (∀ f, (w'.sbx i).keys f = false) ∧ (∀ k, (w'.sbx i).slots k = none) ∧
+    (w'.sbx i).inc = (w.sbx i).inc + 1 := by
+  unfold World.destroy at h
+  by_cases h1 : (w.sbx i).status ≠ .created
+  · simp [h1] at h
+  · by_cases h2 : i ∉ w.reg
+    · simp [h1, h2] at h
+    · simp only [h1, h2, if_false, Option.some.injEq] at h
+      subst h
+      have same : ∀ j, j ≠ i → ({ w.setS i (destroyedObj (w.sbx i)) with reg := w.reg.erase i } : World).sbx j = w.sbx j := by
+        intro j hj; simp [World.setS, hj]
+      have atI : ({ w.setS i (destroyedObj (w.sbx i)) with reg := w.reg.erase i } : World).sbx i = destroyedObj (w.sbx i) := by
+        simp [World.setS]
+      refine ⟨⟨?_, ?_, ?_, hi.ownersUniq, ?_, ?_⟩, rfl, ?_, ?_, ?_⟩
+      · intro j f
+        by_cases hj : j = i
+        · subst hj
+          rw [atI]
+          simp only [destroyedObj, Bool.false_eq_true, false_iff, not_exists]
+          intro o ho
+          have := hi.ownersLe o j f _ ho
+          omega
+        · rw [same j hj]; exact hi.keysOwned j f
+      · intro j f
+        by_cases hj : j = i
+        · subst hj; rw [atI]; simp [destroyedObj]
+        · rw [same j hj]; exact hi.keysSlots j f
+      · intro j k1 k2 f
+        by_cases hj : j = i
+        · subst hj; rw [atI]; simp [destroyedObj]
+        · rw [same j hj]; exact hi.slotsUniq j k1 k2 f
+      · intro o j f n ho
+        by_cases hj : j = i
+        · subst hj; rw [atI]; have := hi.ownersLe o j f n ho; simp only [destroyedObj]; omega
+        · rw [same j hj]; exact hi.ownersLe o j f n ho
+      · intro j f
+        by_cases hj : j = i
+        · subst hj; rw [atI]; simp [destroyedObj]
+        · rw [same j hj]; exact hi.keysCreated j f
+      · intro f; rw [atI]; rfl
+      · intro k; rw [atI]; rfl
+      · rw [atI]; rfl
+
+/-- Application owner objects are not the temporary inside `register_callback` (a naming convention
+of the model, not a restriction on histories). -/
+def stepOk : LOp → Prop
+  | .register _ o _ => o ≠ tmpOwner
+  | .release o => o ≠ tmpOwner
+  | .move d s => d ≠ tmpOwner ∧ s ≠ tmpOwner
   | _ => True
 
-def histOk : World → List LOp → Prop
-  | _, [] => True
-  | w, op :: ops => stepOk w op ∧ histOk (w.step op) ops
+def histOk (ops : List LOp) : Prop := ∀ op ∈ ops, stepOk op
 
-theorem step_inv (w : World) (op : LOp) (hi : Inv w) (ht : TmpFree w) (hok : stepOk w op) :
+theorem step_inv (w : World) (op : LOp) (hi : Inv w) (ht : TmpFree w) (hok : stepOk op) :
     Inv (w.step op) ∧ TmpFree (w.step op) := by
   cases op with
-  | create i ok lib =>
+  | create i ok lib r =>
     simp only [World.step]
-    cases hc : w.create i ok lib with
+    cases hc : w.create i ok lib r with
     | none => exact ⟨hi, ht⟩
-    | some r =>
-      obtain ⟨w', b⟩ := r
+    | some res =>
+      obtain ⟨w', b⟩ := res
       simp only
-      unfold World.create at hc
-      by_cases h1 : (w.sbx i).status ≠ .notCreated
-      · simp [h1] at hc
-      · cases ok <;> simp only [h1, if_false, if_true, Bool.false_eq_true, Option.some.injEq, Prod.mk.injEq] at hc <;>
-          obtain ⟨rfl, _⟩ := hc
-        · refine ⟨⟨?_, ?_, ?_, hi.ownersUniq⟩, ht⟩
-          · intro j f; by_cases hj : j = i
-            · subst hj; simp only [setS_sbx_same, setS_owners]; exact hi.keysOwned j f
-            · rw [setS_sbx_other _ _ _ _ hj]; exact hi.keysOwned j f
-          · intro j f; by_cases hj : j = i
-            · subst hj; simp only [setS_sbx_same, setS_max]; exact hi.keysSlots j f
-            · rw [setS_sbx_other _ _ _ _ hj]; exact hi.keysSlots j f
-          · intro j k1 k2 f; by_cases hj : j = i
-            · subst hj; simp only [setS_sbx_same, setS_max]; exact hi.slotsUniq j k1 k2 f
-            · rw [setS_sbx_other _ _ _ _ hj]; exact hi.slotsUniq j k1 k2 f
-        · refine ⟨⟨?_, ?_, ?_, hi.ownersUniq⟩, ht⟩
-          · intro j f; by_cases hj : j = i
-            · subst hj; simp only [World.setS, if_true]; exact hi.keysOwned j f
-            · simp only [World.setS, hj, if_false]; exact hi.keysOwned j f
-          · intro j f; by_cases hj : j = i
-            · subst hj; simp only [World.setS, if_true]; exact hi.keysSlots j f
-            · simp only [World.setS, hj, if_false]; exact hi.keysSlots j f
-          · intro j k1 k2 f; by_cases hj : j = i
-            · subst hj; simp only [World.setS, if_true]; exact hi.slotsUniq j k1 k2 f
-            · simp only [World.setS, hj, if_false]; exact hi.slotsUniq j k1 k2 f
+      obtain ⟨h1', _, _, rfl⟩ := create_cases w w' i ok lib r b hc
+      have nokeys : ∀ f, (w.sbx i).keys f = true → False := by
+        intro f hf; have := hi.keysCreated i f hf; rw [h1'] at this; cases this
+      cases ok
+      · simp only [Bool.false_eq_true, if_false]
+        refine ⟨inv_congr w _ hi rfl rfl ?_ ?_ ?_ ?_, ht⟩
+        · intro j; by_cases hj : j = i
+          · subst hj; simp [World.setS]
+          · simp [World.setS, hj]
+        · intro j; by_cases hj : j = i
+          · subst hj; simp [World.setS]
+          · simp [World.setS, hj]
+        · intro j; by_cases hj : j = i
+          · subst hj; simp [World.setS]
+          · simp [World.setS, hj]
+        · intro j f; by_cases hj : j = i
+          · subst hj; simp only [World.setS, if_true]; intro hf; exact absurd hf (fun e => nokeys f e)
+          · simp only [World.setS, hj, if_false]; exact hi.keysCreated j f
+      · simp only [if_true]
+        refine ⟨inv_congr w _ hi rfl rfl ?_ ?_ ?_ ?_, ht⟩
+        · intro j; by_cases hj : j = i
+          · subst hj; simp [World.setS]
+          · simp [World.setS, hj]
+        · intro j; by_cases hj : j = i
+          · subst hj; simp [World.setS]
+          · simp [World.setS, hj]
+        · intro j; by_cases hj : j = i
+          · subst hj; simp [World.setS]
+          · simp [World.setS, hj]
+        · intro j f; by_cases hj : j = i
+          · subst hj; simp [World.setS]
+          · simp only [World.setS, hj, if_false]; exact hi.keysCreated j f
   | destroy i =>
     simp only [World.step]
     cases hd : w.destroy i with
     | none => exact ⟨hi, ht⟩
     | some w' =>
       simp only [Option.getD_some]
-      unfold World.destroy at hd
-      by_cases h1 : (w.sbx i).status ≠ .created
-      · simp [h1] at hd
-      · by_cases h2 : i ∉ w.reg
-        · simp [h1, h2] at hd
-        · simp only [h1, h2, if_false, Option.some.injEq] at hd
-          subst hd
-          refine ⟨⟨?_, ?_, ?_, hi.ownersUniq⟩, ht⟩
-          · intro j f; by_cases hj : j = i
-            · subst hj; simp only [World.setS, if_true]; exact hi.keysOwned j f
-            · simp only [World.setS, hj, if_false]; exact hi.keysOwned j f
-          · intro j f; by_cases hj : j = i
-            · subst hj; simp only [World.setS, if_true]; exact hi.keysSlots j f
-            · simp only [World.setS, hj, if_false]; exact hi.keysSlots j f
-          · intro j k1 k2 f; by_cases hj : j = i
-            · subst hj; simp only [World.setS, if_true]; exact hi.slotsUniq j k1 k2 f
-            · simp only [World.setS, hj, if_false]; exact hi.slotsUniq j k1 k2 f
+      obtain ⟨a, b, _⟩ := destroy_inv w w' i hi hd
+      exact ⟨a, by unfold TmpFree; rw [b]; exact ht⟩
   | register i o f =>
     simp only [World.step]
     cases hr : w.register i o f with
     | none => exact ⟨hi, ht⟩
     | some r =>
       obtain ⟨w', k⟩ := r
-      obtain ⟨a, b, _⟩ := C13_register w w' i o f k hi ht hok.1 hok.2 hr
+      obtain ⟨a, b, _⟩ := C13_register w w' i o f k hi ht hok hr
       exact ⟨a, b⟩
   | release o =>
     simp only [World.step]
@@ -440,12 +637,10 @@ theorem step_inv (w : World) (op : LOp) (hi : Inv w) (ht : TmpFree w) (hok : ste
     | none => exact ⟨hi, ht⟩
     | some w' =>
       simp only [Option.getD_some]
-      obtain ⟨a, b, oth, _⟩ := release_inv w w' o hi hok hr
+      obtain ⟨a, _, oth, _⟩ := release_inv w w' o hi hr
       refine ⟨a, ?_⟩
       unfold TmpFree
-      by_cases e : tmpOwner = o
-      · rw [e]; exact b
-      · rw [oth tmpOwner e]; exact ht
+      rw [oth tmpOwner (fun e => hok e.symm)]; exact ht
   | move d s =>
     simp only [World.step]
     cases hr : w.moveOwner d s with
@@ -454,47 +649,99 @@ theorem step_inv (w : World) (op : LOp) (hi : Inv w) (ht : TmpFree w) (hok : ste
       simp only [Option.getD_some]
       by_cases hds : d = s
       · simp [World.moveOwner, hds] at hr; subst hr; exact ⟨hi, ht⟩
-      · obtain ⟨a, _, _, oth, _⟩ := C13_move_transfers w w' d s hds hi hok.2.2 hr
+      · obtain ⟨a, _, _, oth, _⟩ := C13_move_transfers w w' d s hds hi hr
         refine ⟨a, ?_⟩
         unfold TmpFree
-        rw [oth tmpOwner (fun e => hok.1 e.symm) (fun e => hok.2.1 e.symm)]; exact ht
+        rw [oth tmpOwner (fun e => hok.1 e.symm) (fun e => hok.2 e.symm)]; exact ht
   | lookup i n =>
     simp only [World.step, World.lookup]
     split
     · exact ⟨hi, ht⟩
-    · refine ⟨⟨?_, ?_, ?_, hi.ownersUniq⟩, ht⟩
+    · refine ⟨inv_congr w _ hi rfl rfl ?_ ?_ ?_ ?_, ht⟩
+      · intro j; by_cases hj : j = i
+        · subst hj; simp [World.setS]
+        · simp [World.setS, hj]
+      · intro j; by_cases hj : j = i
+        · subst hj; simp [World.setS]
+        · simp [World.setS, hj]
+      · intro j; by_cases hj : j = i
+        · subst hj; simp [World.setS]
+        · simp [World.setS, hj]
       · intro j f; by_cases hj : j = i
-        · subst hj; simp only [World.setS, if_true]; exact hi.keysOwned j f
-        · simp only [World.setS, hj, if_false]; exact hi.keysOwned j f
-      · intro j f; by_cases hj : j = i
-        · subst hj; simp only [World.setS, if_true]; exact hi.keysSlots j f
-        · simp only [World.setS, hj, if_false]; exact hi.keysSlots j f
-      · intro j k1 k2 f; by_cases hj : j = i
-        · subst hj; simp only [World.setS, if_true]; exact hi.slotsUniq j k1 k2 f
-        · simp only [World.setS, hj, if_false]; exact hi.slotsUniq j k1 k2 f
+        · subst hj; simp only [World.setS, if_true]; exact hi.keysCreated j f
+        · simp only [World.setS, hj, if_false]; exact hi.keysCreated j f
 
-theorem inv_fold (ops : List LOp) : ∀ w, Inv w → TmpFree w → histOk w ops → Inv (ops.foldl World.step w) := by
+theorem inv_fold (ops : List LOp) : ∀ w, Inv w → TmpFree w → histOk ops →
+    Inv (ops.foldl World.step w) ∧ TmpFree (ops.foldl World.step w) := by
   induction ops with
-  | nil => intro w hw _ _; exact hw
+  | nil => intro w hw ht _; exact ⟨hw, ht⟩
   | cons op ops ih =>
     intro w hw ht hk
-    obtain ⟨a, b⟩ := step_inv w op hw ht hk.1
-    exact ih _ a b hk.2
+    obtain ⟨a, b⟩ := step_inv w op hw ht (hk op (by simp))
+    exact ih _ a b (fun o ho => hk o (by simp [ho]))
 
-theorem C13_inv (m : Nat) (ops : List LOp) (hok : histOk (World.init m) ops) :
+/-- **C13, every history.** After any sequence of register / unregister / destroy-owner / move /
+destroy_sandbox / create_sandbox / lookup operations, of any length, on any number of sandbox
+objects and owner objects and any backend table size, the ownership invariant holds -- including
+histories in which owner objects outlive `destroy_sandbox` and the sandbox is created again
+(before the repair of F6b this was false, see `known_findings.json`). -/
+theorem C13_inv (m : Nat) (ops : List LOp) (hok : histOk ops) :
     Inv (ops.foldl World.step (World.init m)) :=
-  inv_fold ops _ (inv_init m) rfl hok
+  (inv_fold ops _ (inv_init m) rfl hok).1
 
-/-- Full statement without the side condition. -/
-def C13_full : Prop := ∀ (m : Nat) (ops : List LOp), Inv (ops.foldl World.step (World.init m))
+/-- The set of functions reachable from sandbox `i` through the entry-point table equals the set of
+functions held by live owners, in every reachable state. -/
+theorem C13_reachable_eq_owned (m : Nat) (ops : List LOp) (hok : histOk ops) (i f : Nat) :
+    let w := ops.foldl World.step (World.init m)
+    (∃ k, k < w.max ∧ (w.sbx i).slots k = some f) ↔ ∃ o, holdsLive w o i f := by
+  intro w
+  have hi := C13_inv m ops hok
+  rw [← hi.keysSlots i f]
+  constructor
+  · intro hk
+    obtain ⟨o, ho⟩ := (hi.keysOwned i f).1 hk
+    exact ⟨o, ho, hi.keysCreated i f hk⟩
+  · rintro ⟨o, ho, _⟩
+    exact (hi.keysOwned i f).2 ⟨o, ho⟩
 
-/-- False of the code as it is (finding F6b): an owner destroyed after `destroy_sandbox` of its
-sandbox cannot unregister (the call is swallowed), its key and entry point stay behind. -/
-theorem C13_outlive_witness : ¬ C13_full := by
-  intro h
-  have := (h 2 [.create 0 true 0, .register 0 0 7, .destroy 0, .release 0]).keysOwned 0 7
-  revert this
+/-- In every reachable state no owner operation aborts: releasing, destroying or moving an owner is
+harmless at any time -- in particular after `destroy_sandbox` of its sandbox, and after that sandbox
+object has been created again. -/
+theorem C13_owner_ops_never_abort (m : Nat) (ops : List LOp) (hok : histOk ops) (o d s : Nat) :
+    let w := ops.foldl World.step (World.init m)
+    (∃ w', w.release o = some w') ∧ (∃ w', w.moveOwner d s = some w') := by
+  intro w
+  have hi := C13_inv m ops hok
+  exact ⟨release_total w o hi, move_total w d s hi⟩
+
+/-- A stale owner (its sandbox has been destroyed since it registered, and perhaps created again)
+cannot take away anything: releasing it changes no key set and no entry-point table. -/
+theorem C13_stale_release_inert (w w' : World) (o i f n : Nat) (ho : w.owners o = some (i, f, n))
+    (hst : (w.sbx i).status ≠ .created ∨ (w.sbx i).inc ≠ n) (h : w.release o = some w') :
+    w'.sbx = w.sbx ∧ w'.owners o = none := by
+  rcases release_cases w w' o h with ⟨hn, _⟩ | ⟨_, _, _, _, _, rfl⟩ | ⟨i', f', n', ho', hc, hinc, _, _⟩
+  · rw [ho] at hn; cases hn
+  · exact ⟨rfl, by simp [World.setO]⟩
+  · rw [ho] at ho'
+    have := Option.some.inj ho'
+    simp only [Prod.mk.injEq] at this
+    obtain ⟨rfl, rfl, rfl⟩ := this
+    rcases hst with a | a
+    · exact absurd hc a
+    · exact absurd hinc a
+
+/-- non-vacuity: the history that was the witness of finding F6b (owner outlives destroy_sandbox,
+sandbox created again, same function registered again, stale owner destroyed) is well formed, and
+at its end the new registration is still there. -/
+example : histOk [.create 0 true 0 0, .register 0 0 7, .destroy 0, .create 0 true 0 0, .register 0 1 7, .release 0] := by
+  intro op h
+  simp only [List.mem_cons, List.mem_nil_iff, or_false] at h
+  rcases h with rfl | rfl | rfl | rfl | rfl | rfl <;> simp [stepOk, tmpOwner]
+
+example :
+    let w := [LOp.create 0 true 0 0, .register 0 0 7, .destroy 0, .create 0 true 0 0, .register 0 1 7, .release 0].foldl World.step (World.init 2)
+    (w.sbx 0).keys 7 = true ∧ w.owners 1 = some (0, 7, 1) ∧ w.owners 0 = none := by
   simp [World.step, World.create, World.register, World.registerNew, World.moveOwner, World.release, World.destroy,
-    World.init, World.setS, World.setO, firstFree, scanIdx, registeredObj, releasedObj, tmpOwner]
+    World.init, World.setS, World.setO, firstFree, scanIdx, registeredObj, releasedObj, destroyedObj, slotOf, tmpOwner]
 
 end Rlbox.C13
